@@ -76,6 +76,10 @@ int main() {
   O(Transport_writesQueue, Tcp::Transport, writesQueue); O(Transport_timersQueue, Tcp::Transport, timersQueue); O(Transport_peersQueue, Tcp::Transport, peersQueue); O(Transport_notifier, Tcp::Transport, notifier);
   O(PollableQueue_event_fd, PollableQueue<Tcp::Transport::WriteEntry>, event_fd); S(FdSetEntry, Aio::FdSet::Entry); O(Event_flags, Polling::Event, flags); O(Event_tag, Polling::Event, tag);
   printf("#define VP_NOTIFY_READ %d\n#define VP_NOTIFY_WRITE %d\n", (int)Polling::NotifyOn::Read, (int)Polling::NotifyOn::Write);
+  O(ResponseWriter_response, ResponseWriter, response_); O(ResponseWriter_buf, ResponseWriter, buf_); O(ResponseWriter_sent_bytes, ResponseWriter, sent_bytes_); O(ResponseWriter_transport, ResponseWriter, transport_); O(ResponseWriter_timeout, ResponseWriter, timeout_); S(ResponseWriter, ResponseWriter);
+  O(CookieJar_cookies, CookieJar, cookies); S(CookieJar, CookieJar);
+  { typedef std::pair<const std::string, CookieJar::HashMapCookies> E1; typedef std::pair<const std::string, Cookie> E2; printf("#define SIZEOF_JarOuterEntry %zu\n#define OFF_JarOuterEntry_second %zu\n#define SIZEOF_JarInnerEntry %zu\n#define OFF_JarInnerEntry_second %zu\n", sizeof(E1), offsetof(E1, second), sizeof(E2), offsetof(E2, second)); }
+  O(Message_version_, Message, version_); O(Message_code_, Message, code_);
   printf("#define SIZEOF_WriteDeque %zu\n", sizeof(std::deque<Tcp::Transport::WriteEntry>));
   printf("#define VP_MIME_TYPES ");
 #define TYPE(val, str) printf("\"%s\",", str);
